@@ -18,7 +18,10 @@
       MCSMatcher._componentwise_mcs / find_rc_mapping(side='its', component=True) (round 3):
         nx.connected_components in node order, stable sort by size (descending), pairwise search on
         the induced copies, first mapping of each sorted local list, dict.update      [componentwise, find_rc_component]
-    Not modelled: prune_automorphisms and mcs_mol (both keep the FIRST result in VF2's enumeration order). *)
+      prune_automorphisms=True: WHICH mappings survive depends on VF2's enumeration order (the first one per host node
+        set); what does not depend on it -- orientation, last_size, subsets tried and the SET of host node sets that
+        keep a representative -- is modelled                                        [host_set, host_sets, run_matcher_auto]
+    Not modelled: the representative kept under prune_automorphisms, mcs_mol (keeps VF2's first isomorphism). *)
 From Coq Require Import List NArith ZArith Bool Arith.
 From SK Require Import lib.Tok lib.LGraph lib.Mono lib.Reach.
 Import ListNotations.
@@ -256,6 +259,27 @@ Definition find_rc_component (defs : list N) (prune : bool) (wc : N) (g1 g2 : gr
   let '(combined, tried) := componentwise (node_match defs) edge_match (prune_graph prune wc g1) (prune_graph prune wc g2) mcs in
   {| r_maps := [combined]; r_last := length combined; r_tried := tried; r_pattern_is_g1 := true |}.
 
+(* ---------- prune_automorphisms: host node sets ---------- *)
+Fixpoint insertN (x : N) (l : list N) : list N :=
+  match l with
+  | [] => [x]
+  | y :: r => if N.leb x y then x :: l else y :: insertN x r
+  end.
+Definition host_set (m : mapping) : list N := fold_right insertN [] (map snd m).
+Fixpoint nlist_eqb (a b : list N) : bool :=
+  match a, b with
+  | [], [] => true
+  | x :: a', y :: b' => N.eqb x y && nlist_eqb a' b'
+  | _, _ => false
+  end.
+Fixpoint dedupe_sets (l : list (list N)) : list (list N) :=
+  match l with
+  | [] => []
+  | x :: r => if existsb (nlist_eqb x) r then dedupe_sets r else x :: dedupe_sets r
+  end.
+(** host node sets that keep a representative = host node sets of the unpruned result (pattern -> host orientation) *)
+Definition host_sets (maps : list mapping) : list (list N) := dedupe_sets (map host_set maps).
+
 (* ---------- observables ---------- *)
 Definition tmap (m : mapping) : tok := tset (tpair tN tN) m.
 
@@ -265,6 +289,10 @@ Definition run_matcher (defs : list N) (prune : bool) (wc : N) (g1 g2 : graph) (
      tlist tmap (get_mappings PatternToHost r);
      tlist tmap (get_mappings G1toG2 r);
      tlist tmap (get_mappings G2toG1 r)].
+
+Definition run_matcher_auto (defs : list N) (prune : bool) (wc : N) (g1 g2 : graph) (mcs : bool) : tok :=
+  let r := find_common_subgraph defs prune wc g1 g2 mcs in
+  L [tbool (r_pattern_is_g1 r); tnat (r_last r); tnat (r_tried r); tset (tlist tN) (host_sets (r_maps r))].
 
 Definition run_component (defs : list N) (prune : bool) (wc : N) (g1 g2 : graph) (mcs : bool) : tok :=
   let r := find_rc_component defs prune wc g1 g2 mcs in
